@@ -111,6 +111,90 @@ def query_fingerprint(nl):
     return out
 
 
+# (is_unique is left out: it counts references from outside the netlist too, which a copy by
+# definition does not have)
+QUERY_METHODS = ("index", "is_leaf")
+
+
+def public_view(nl):
+    """every public property (and the argument-less query methods) of every element that yields a
+    primitive value, in canonical order: a copy answers them like the original"""
+    import enum
+
+    out = []
+
+    def add(tag, e):
+        vals = []
+        for n in sorted(dir(type(e))):
+            if n.startswith("_"):
+                continue
+            attr = getattr(type(e), n, None)
+            try:
+                if isinstance(attr, property):
+                    v = getattr(e, n)
+                elif n in QUERY_METHODS and callable(attr):
+                    v = getattr(e, n)()
+                else:
+                    continue
+            except Exception as ex:  # noqa
+                v = "raises " + type(ex).__name__
+            if isinstance(v, (bool, int, str, type(None), enum.Enum)):
+                vals.append((n, str(v)))
+        out.append((tag, vals))
+
+    add("netlist", nl)
+    if nl.top_instance is not None:
+        add("top", nl.top_instance)
+    for li, L in enumerate(nl.libraries):
+        add("lib%d" % li, L)
+        for di, D in enumerate(L.definitions):
+            t = "lib%d.def%d" % (li, di)
+            add(t, D)
+            for pi, P in enumerate(D.ports):
+                add("%s.port%d" % (t, pi), P)
+                for xi, x in enumerate(P.pins):
+                    add("%s.port%d.pin%d" % (t, pi, xi), x)
+            for ci, C in enumerate(D.cables):
+                add("%s.cable%d" % (t, ci), C)
+                for wi, w in enumerate(C.wires):
+                    add("%s.cable%d.wire%d" % (t, ci, wi), w)
+            for ii, I in enumerate(D.children):
+                add("%s.inst%d" % (t, ii), I)
+                if I.reference is not None:
+                    k = 0
+                    for P in I.reference.ports:
+                        for x in P.pins:
+                            if x in I.pins:
+                                add("%s.inst%d.outer%d" % (t, ii, k), I.pins[x])
+                            k += 1
+    return out
+
+
+def proxies_stand_for_pins(root):
+    """(instance, inner pin) proxies compare equal to the registered outer pins and hash like them"""
+    import spydrnet as sdn
+
+    insts = []
+    if isinstance(root, sdn.Netlist):
+        insts = [I for L in root.libraries for D in L.definitions for I in D.children]
+        if root.top_instance is not None:
+            insts.append(root.top_instance)
+    elif isinstance(root, sdn.Library):
+        insts = [I for D in root.definitions for I in D.children]
+    elif isinstance(root, sdn.Definition):
+        insts = list(root.children)
+    elif isinstance(root, sdn.Instance):
+        insts = [root]
+    for I in insts:
+        for ip, op in list(I.pins.items()):
+            proxy = sdn.OuterPin.from_instance_and_inner_pin(I, ip)
+            if not (proxy == op):
+                return "proxy-differs-from-registered-outer-pin"
+            if hash(proxy) != hash(op):
+                return "equal-outer-pins-hash-differently"
+    return None
+
+
 class C07(Prop):
     ID = "C07"
     RULE = ("design recipes (named and unnamed elements, nested user data on every first-class element, "
@@ -264,7 +348,8 @@ class C07(Prop):
                     res.label("pre-detached-instance-clone")
             elif k == "remove_def":
                 top = nl.top_instance
-                if len(D.references) == 0 and len(D.children) and (top is None or top.reference is not D):
+                if len(D.references) == 0 and len(D.children) and (top is None or (
+                        top.reference is not D and top.parent is not D)):
                     D.library.remove_definition(D)
                     keep.append(D)
                     defs = [x for x in defs if x is not D]
@@ -319,6 +404,20 @@ class C07(Prop):
             res.violate("C07:netlist:query-answers-differ:%s" % (qa[k][0] if k is not None else "len"),
                         "%r vs %r" % (qa[k] if k is not None else len(qa),
                                       qb[k] if k is not None else len(qb)))
+            return
+        va, vb = public_view(nl), public_view(c)
+        if va != vb:
+            k = next((i for i, (x, y) in enumerate(zip(va, vb)) if x != y), None)
+            what = "length"
+            if k is not None:
+                da = dict(va[k][1]); db = dict(vb[k][1])
+                what = next((n for n in sorted(set(da) | set(db)) if da.get(n) != db.get(n)), "?")
+            res.violate("C07:netlist:public-view-differs:%s" % what, "%r vs %r" % (
+                va[k] if k is not None else len(va), vb[k] if k is not None else len(vb)))
+            return
+        bad = proxies_stand_for_pins(c)
+        if bad:
+            res.violate("C07:netlist:%s" % bad, "in the clone")
             return
         self.follow(res, nl, c, case)
 
